@@ -458,8 +458,9 @@ class CatalogWriter(AbstractContextManager, HandlesDataChunk):
     def __enter__(self) -> Self:
         return self
 
-    def __exit__(self, *args, **kwargs) -> None:
-        self.finalize()
+    def __exit__(self, exc_type=None, *args, **kwargs) -> None:
+        if exc_type is None:  # otherwise leave the cache incomplete and invalid
+            self.finalize()
 
     @property
     def num_patches(self) -> int:
